@@ -104,7 +104,16 @@ fn check_for_boolean_directive(
 
     let mut first_line = true;
 
-    for line in code[..subject_pos + 1].lines().rev()
+    /*
+     * The subject may start with a multi-byte character: include all of it.
+     */
+    let mut subject_end = subject_pos + 1;
+    while !code.is_char_boundary(subject_end)
+    {
+        subject_end += 1;
+    }
+
+    for line in code[..subject_end].lines().rev()
     {
         if first_line
         {
